@@ -70,7 +70,7 @@ GUARDED = [
 
 # names through which program bytes or an output channel can be reached; none may occur before a guard
 SENSITIVE = {
-    'bytecode', '_program_code', 'lister', 'detokenise_line', 'tokeniser', 'console', '_console', 'files',
+    'bytecode', '_program_code', 'lister', 'detokenise_line', 'console', '_console', 'files',
     '_files', 'open', 'write', 'write_line', 'list_line', 'read', 'getvalue', '_get_memory',
     '_get_memory_block', '_set_memory', '_set_memory_block', 'get_memory', 'get_memory_block', 'set_memory',
     'list_lines', 'edit', 'save', 'merge', 'load', 'store_line', 'delete', 'renum', 'erase', 'protect',
@@ -175,11 +175,53 @@ def assigned_before(body, idx, target_src, value_src):
     return False
 
 
+# callbacks in which the guard may sit inside the branch that reaches the primitive (line entry): the guard
+# must then dominate every use of the primitive
+NESTED_TARGET = {'_store_line': 'store_line', '_auto_step': 'store_line'}
+
+
+def nested_guard(fn, target):
+    """Find `if <protected>: raise` nested under if/try blocks; return (block, index) of the guard after checking
+    that everything executed before it is harmless and that every use of `target` comes after it in its block."""
+    def search(stmts, before):
+        for i, st_ in enumerate(stmts):
+            if isinstance(st_, ast.If) and mentions_protected(st_.test):
+                return stmts, i, before + stmts[:i]
+            if not mentions_protected(st_):
+                continue
+            if isinstance(st_, ast.If):
+                if attrs_in(st_.test) & SENSITIVE:
+                    refuse(st_, '%s: sensitive test above the guard' % fn.name)
+                for blk in (st_.body, st_.orelse):
+                    if any(mentions_protected(x) for x in blk):
+                        return search(blk, before + stmts[:i])
+            elif isinstance(st_, ast.Try):
+                if any(mentions_protected(x) for x in st_.body):
+                    return search(st_.body, before + stmts[:i])
+            refuse(st_, '%s: .protected in an unsupported position' % fn.name)
+        refuse(fn, '%s: guard not found' % fn.name)
+    block, i, before = search(body_stmts(fn), [])
+    for st_ in before:
+        ok = harmless_prefix(st_) or (isinstance(st_, ast.If) and not (attrs_in(st_) & SENSITIVE)
+                                      and all(isinstance(b, (ast.Return, ast.Raise)) for b in st_.body + st_.orelse))
+        if not ok:
+            refuse(st_, '%s: statement before the nested guard is not harmless: %s' % (fn.name, ast.unparse(st_)[:80]))
+    uses = sum(1 for n in ast.walk(fn) if isinstance(n, ast.Attribute) and n.attr == target)
+    after = sum(1 for st_ in block[i + 1:] for n in ast.walk(st_) if isinstance(n, ast.Attribute) and n.attr == target)
+    if uses == 0 or uses != after:
+        refuse(fn, '%s: the nested guard does not dominate every use of %s' % (fn.name, target))
+    return block, i
+
+
 def classify(fn):
     """-> (kind, echo)"""
     body = body_stmts(fn)
     idx = [i for i, s in enumerate(body) if isinstance(s, ast.If) and mentions_protected(s.test)]
     total = sum(1 for n in ast.walk(fn) if isinstance(n, ast.Attribute) and n.attr == 'protected')
+    if not idx and total == 1 and fn.name in NESTED_TARGET:
+        body, i0 = nested_guard(fn, NESTED_TARGET[fn.name])
+        body = [body[i0]]          # checked above: treat the guard as the first statement of its block
+        idx = [0]
     if not idx:
         if total:
             refuse(fn, '%s mentions .protected outside a top-level guard' % fn.name)
